@@ -208,6 +208,10 @@ def extra(stats, tier, seed):
                 sl, ex, ms = rng.choice(vals), rng.choice(vals[1:]), rng.choice(vals + [120])
                 att = rng.randint(1, 6)
                 pol = R.ExceptionRetryPolicy(sleep=sl, exponent=ex, max_sleep=ms)
+                if i % 2:
+                    # the policy object is shared by all submissions of an executor: earlier questions must not change later answers
+                    for a0 in [rng.randint(1, 6) for _ in range(rng.randint(1, 5))]:
+                        pol.sleep_time(a0, None)
                 r = Fraction(pol.sleep_time(att, None))
                 py = [r.numerator, r.denominator]
                 fs, fe, fm = Fraction(sl), Fraction(ex), Fraction(ms)
